@@ -325,3 +325,74 @@ def trace_stage(prop, tier, name, seed, runs, nops):
     res["rule"] = ("each trace = one recorded run of 2-4 OS threads x seeded random programs over Arc/OffsetArc/ArcUnion handles to one value; "
                    "distinct by seed; every event of every run is validated by TLC")
     return res
+
+
+def inject_stage(prop, tier, name):
+    """deterministic preemption injection: for every (handle kind x victim call x number of other owners x adversary
+    action x injection point(s)) the adversary runs, as a second thread, right before the victim call's k-th count
+    operation; the resulting two-thread executions are judged by ArcMMTrace like the recorded concurrent runs"""
+    wd = workdir(prop)
+    exe = build_harness("a")
+    res = {"name": name, "states": 0, "transitions": 0, "evaluations": 0, "nontrivial": 0, "traces": 0, "samples": [],
+           "violations": [], "notes": [], "exhaustive": True, "detail": {}}
+    nd = os.path.join(wd, name + ".ndjson")
+    if os.path.exists(nd):
+        os.remove(nd)
+    r = subprocess.run([exe, "inject", nd], cwd=wd, stdout=subprocess.PIPE, stderr=subprocess.STDOUT, text=True, timeout=1800)
+    if r.returncode != 0:
+        cur = "?"
+        try:
+            inits = [l for l in open(nd) if '"init"' in l]
+            cur = json.loads(inits[-1]).get("scenario", "?") if inits else "?"
+        except Exception:
+            pass
+        res["violations"].append({"stage": name, "key": "crash-in-injection",
+                                  "errors": ["[crash] the process died (exit %s) in (or right after) the injected scenario: %s" % (r.returncode, cur)]})
+        return res
+    lines = open(nd).read().splitlines()
+    nscen = sum(1 for l in lines if '"init"' in l)
+    # judge; on a violation report the scenario, cut it out and continue, so that every scenario is judged
+    rest = lines
+    for attempt in range(8):
+        cur = os.path.join(wd, "%s_%d.ndjson" % (name, attempt))
+        with open(cur, "w") as f:
+            f.write("\n".join(rest) + "\n")
+        st, v = judge_trace(wd, cur, "%s_%d" % (name, attempt))
+        res["states"] += st["distinct"]
+        res["transitions"] += st["generated"]
+        res.setdefault("tlc", st)
+        if v is None:
+            break
+        # which scenario: the last init record at or before the failing position
+        txt = open(os.path.join(wd, "%s_%d.out" % (name, attempt)), errors="replace").read()
+        ls = re.findall(r"^/\\ l = (\d+)", txt, re.M)
+        m = re.search(r"TRACE-REJECTED at event\", (\d+),", txt)
+        pos = int(m.group(1)) if m else (int(ls[-1]) if ls else len(rest))
+        start = max(i for i in range(min(pos, len(rest))) if '"init"' in rest[i])
+        end = next((i for i in range(start + 1, len(rest)) if '"init"' in rest[i]), len(rest))
+        scen = json.loads(rest[start]).get("scenario", "?")
+        keep = next_replay_path(prop, tier, name + "-scenario").replace(".json", ".ndjson")
+        with open(keep, "w") as f:
+            f.write("\n".join(rest[start:end]) + "\n")
+        v.update({"stage": name, "trace": keep, "scenario": scen})
+        v["key"] = "inject:%s:%s" % (scen.split(" adversary")[0], v["key"])
+        v["errors"] = [v["errors"][0] + " -- scenario: " + scen]
+        res["violations"].append(v)
+        rest = rest[:start] + rest[end:]
+        if not any('"init"' in l for l in rest):
+            break
+    # one violation per (kind, call) is enough
+    seen, uniq = set(), []
+    for v in res["violations"]:
+        k = v["key"].split(" others")[0]
+        if k not in seen:
+            seen.add(k)
+            uniq.append(v)
+    res["violations"] = uniq
+    res["evaluations"] = len(lines)
+    res["traces"] = nscen
+    res["nontrivial"] = nscen
+    res["samples"] = [[json.loads(l) for l in lines[:12]]]
+    res["rule"] = ("one two-thread execution per (handle kind, victim call, other owners, adversary action, injection point(s)); all distinct; "
+                   "all non-trivial (an adversary call runs between two count operations of the victim call)")
+    return res
